@@ -421,6 +421,10 @@ func Run(r *hk.Run) {
 	r.Probe("F-C14-1", seen[sigFds] > 0, fmt.Sprintf("race reports with signature %s in this run: %d", sigFds, seen[sigFds]))
 	r.Probe("F-C14-2", seen[sigDelClaim] > 0, fmt.Sprintf("race reports with signature %s in this run: %d", sigDelClaim, seen[sigDelClaim]))
 	knownWitnesses(r)
+	r.ImplOnly("classifier-self-test")
+	if msg := classifierSelfTest(); msg != "" {
+		r.Fail("harness:classifier-selftest", msg, "", "", nil)
+	}
 	dead, detail := probeNestedRLock()
 	r.Probe("F-C14-3", dead, detail)
 	if dead {
